@@ -10,6 +10,8 @@ import SynKitProofs.GmlIsoLemmas
 import SynKitProofs.GmlReaderLemmas
 import SynKitProofs.GmlReindexLemmas
 import SynKitProofs.GmlSmartLemmas
+import SynKitModel.ReprOpt
+import SynKitProofs.ReprOptLemmas
 /-!
 # C10 — changing representation (SMILES ↔ graph, explicit ↔ implicit hydrogens, ITS ↔ GML) loses nothing
 
@@ -337,6 +339,267 @@ example :
 example : alpha "Cl".toList ∧ parseLabel (render "Mg".toList 12) = ("Mg".toList, 12) := by decide
 
 end Gml
+/-! ## The non-default options (`SynKitModel/ReprOpt.lean`)
+
+`h_to_explicit(G, nodes, its)`, `implicit_hydrogen(reindex=True)`, `MolToGraph.transform` with
+`use_index_as_atom_map` / `drop_non_aam`, the GML writer with `explicit_hydrogen`.  Helper lemmas in
+`SynKitProofs/ReprOptLemmas.lean`. -/
+namespace ReprOpt
+open SynKit.Repr SynKit.Gml
+
+/-- **C10, hydrogens: count, `h_to_explicit(G, nodes, its)`** (third clause of `C10.FullStatement` for
+the node-list option).  For a graph with distinct node ids (the first component of `LGraph.WF`; a
+NetworkX graph always has them) and **any** node list `ns` — ids that are not nodes of `G`, repeated
+ids, ids of hydrogens the call itself has just created are all allowed; `[]` stands for `None` — and
+both values of `its`, the expansion keeps the number of hydrogens of the molecule.  No typing guard
+(`HTyped`) and no guard on `typesGH` (`typesDomain` / `explicitDomain`) is needed: the `typesGH`
+adjustment does not touch `hcount` or `element`, and `its=True` only rewrites edge attributes. -/
+theorem hToExplicitG_totalH (G : LGraph) (hn : G.ids.Nodup) (ns : List Nat) (its : Bool) :
+    totalH (hToExplicitG G ns its) = totalH G := hToExplicitG_totalH' G hn ns its
+
+/-- **C10, `h_to_explicit(G, nodes)` in closed form.**  The loop over an arbitrary node list equals
+the explicit graph `form G L`: `L` (`expanded G ns`) lists the atoms that are really expanded — the
+nodes of `G` with a positive count, each once, in the order of their first visit — their `hcount`
+goes to zero (and `typesGH` is adjusted when present), and one block of consecutive fresh hydrogen
+ids per atom of `L` is appended after the old nodes (edges likewise). -/
+theorem hToExplicitG_closed_form (G : LGraph) (hn : G.ids.Nodup) (ns : List Nat) :
+    hToExplicitG G ns false = form G (expanded G ns) ∧ (expanded G ns).Nodup ∧
+    ∀ v ∈ expanded G ns, v ∈ G.ids ∧ hcnt (G.attrs v) > 0 :=
+  ⟨hToExplicitG_eq_form G hn ns, expanded_inv G ns⟩
+
+/-- **C10, `h_to_explicit(G, nodes=all)` is the default model.**  With `nodes=None` (`[]`) or the
+list of all ids, and no `typesGH` on an atom with a positive count (`explicitDomain`, the domain of
+the default model `hToExplicit`, which does not model the adjustment), the option model returns
+*the same graph* as `hToExplicit`: same node list, same edge list. -/
+theorem hToExplicitG_all (G : LGraph) (hn : G.ids.Nodup) (hd : explicitDomain G = true) :
+    hToExplicitG G [] false = hToExplicit G ∧ hToExplicitG G G.ids false = hToExplicit G := by
+  obtain ⟨h1, h2⟩ := expanded_all G hn
+  exact ⟨by rw [hToExplicitG_eq_form G hn, h1, form_all G hn hd],
+    by rw [hToExplicitG_eq_form G hn, h2, form_all G hn hd]⟩
+
+/-- **C10, hydrogens: round trip for a node list** (second clause of `C10.FullStatement` for the
+node-list option; the node-list version of `hToImplicit_hToExplicit`).  Under the guard of that
+theorem (`NoHeavyBoundH`: no explicit hydrogen bonded to a heavy atom, no count on a hydrogen), on
+a well-formed typed graph none of whose atoms with a positive count carries `typesGH`
+(`explicitDomain`: `h_to_implicit` does not undo the `typesGH` adjustment, see the example below),
+expanding **any** node list and folding back gives *the same graph*. -/
+theorem hToExplicitG_restores (G : LGraph) (hwf : G.WF) (ht : HTyped G) (hg : NoHeavyBoundH G)
+    (hd : explicitDomain G = true) (ns : List Nat) : hToImplicit (hToExplicitG G ns false) = G :=
+  hToExplicitG_restores' G hwf ht hg hd ns
+
+/-- Non-vacuity for `hToExplicitG_totalH` / `_closed_form` / `_all` / `_restores`: CH₃–OH next to H₂,
+node list `[2, 9, 2, 8, 5]` (an absent id, a repeated id, the id of a hydrogen created for node 2, a
+hydrogen of `G`): every hypothesis holds, only the oxygen is expanded (one new node, id 8), the
+total is 6 before and after, folding back restores `G`; with all ids both atoms are expanded. -/
+example :
+    let G : LGraph := { nodes := [(1, [("element", .str "C"), ("hcount", .num 6)]),
+                                  (2, [("element", .str "O"), ("hcount", .num 2)]),
+                                  (5, [("element", .str "H"), ("hcount", .num 0)]),
+                                  (7, [("element", .str "H"), ("hcount", .num 0)])],
+                        edges := [(1, 2, [("order", .num 2)]), (5, 7, [("order", .num 2)])] }
+    G.WF ∧ HTyped G ∧ NoHeavyBoundH G ∧ explicitDomain G = true ∧ typesDomain G = true ∧
+    expanded G [2, 9, 2, 8, 5] = [2] ∧ (hToExplicitG G [2, 9, 2, 8, 5] false).ids = [1, 2, 5, 7, 8] ∧
+    totalH G = 6 ∧ totalH (hToExplicitG G [2, 9, 2, 8, 5] true) = 6 ∧
+    hToImplicit (hToExplicitG G [2, 9, 2, 8, 5] false) = G ∧
+    (hToExplicitG G G.ids false).ids = [1, 2, 5, 7, 8, 9, 10, 11] ∧ hToExplicitG G [] false = hToExplicit G := by
+  decide
+
+/-- `explicitDomain` cannot be dropped from `hToExplicitG_restores`: on an ITS node the expansion
+also decrements the hydrogen count inside `typesGH`, which `h_to_implicit` does not put back. -/
+example :
+    let G : LGraph := { nodes := [(1, [("element", .str "O"), ("hcount", .num 2),
+                                       ("typesGH", .tup [.tup [.str "O", .bool false, .num 2, .num 0, .tup []],
+                                                         .tup [.str "O", .bool false, .num 2, .num 0, .tup []]])])],
+                        edges := [] }
+    G.WF ∧ HTyped G ∧ NoHeavyBoundH G ∧ typesDomain G = true ∧ explicitDomain G = false ∧
+    hToImplicit (hToExplicitG G [1] false) ≠ G ∧ totalH (hToExplicitG G [1] false) = totalH G := by
+  decide
+
+/-- **C10, `implicit_hydrogen(reindex=True)` is `implicit_hydrogen` renumbered.**  For a well-formed
+graph and every `preserve` list, with `h = implicitHydrogen G K`:
+* the new ids are `1..n` in the node order of `h`;
+* the renumbering `reindexMap h` (`v ↦ position of v in h + 1`) is injective on the nodes of `h`;
+* `implicitHydrogenReindex G K` is `h` relabelled along it, up to the `atom_map` attribute: the
+  listed mapping is a label-preserving isomorphism (`Match.IsIso`) for every selection of node /
+  edge attributes that does not compare `atom_map` (with or without the hydrogen-count rule);
+* every node carries its own new id as `atom_map`. -/
+theorem implicitHydrogenReindex_relabel (G : LGraph) (K : List Nat) (hwf : G.WF) :
+    (implicitHydrogenReindex G K).ids = List.range' 1 (implicitHydrogen G K).nodes.length ∧
+    Match.InjOnIds (implicitHydrogen G K) (reindexMap (implicitHydrogen G K)) ∧
+    (∀ sel : Match.Sel, "atom_map" ∉ sel.nodeKeys →
+      Match.IsIso sel (implicitHydrogenReindex G K) (implicitHydrogen G K)
+        ((implicitHydrogen G K).ids.map fun v => (v, reindexMap (implicitHydrogen G K) v))) ∧
+    (∀ p ∈ (implicitHydrogenReindex G K).nodes, atomMapOf p.2 = some p.1) :=
+  ⟨implicitHydrogenReindex_ids G K (ImplH.implicitH_ids_nodup G hwf.1 K), reindexMap_injOn _,
+    fun sel hk => implicitHydrogenReindex_iso G K hwf sel hk, implicitHydrogenReindex_atomMap G K⟩
+
+/-- **C10, hydrogens: count, `implicit_hydrogen(reindex=True)`.**  Under the guard of
+`totalH_implicitHydrogen` (`HValence`) the re-indexed result has as many hydrogens as `G`; without
+any guard it has as many as `implicit_hydrogen(reindex=False)`. -/
+theorem totalH_implicitHydrogenReindex (G : LGraph) (K : List Nat) :
+    totalH (implicitHydrogenReindex G K) = totalH (implicitHydrogen G K) ∧
+    (G.WF → HValence G → totalH (implicitHydrogenReindex G K) = totalH G) :=
+  ⟨totalH_implicitHydrogenReindex' G K, fun hwf hv => by
+    rw [totalH_implicitHydrogenReindex' G K, Repr.totalH_implicitHydrogen G K hwf hv]⟩
+
+/-- Non-vacuity: CH₃–H with the fourth hydrogen explicit next to H₂ (ids 4, 9, 6, 7), nothing
+preserved: node 9 is folded in, the survivors 4, 6, 7 become 1, 2, 3 with `atom_map` = new id, the
+H–H bond follows, the count is 6 before and after. -/
+example :
+    let G : LGraph := { nodes := [(4, [("element", .str "C"), ("hcount", .num 6), ("atom_map", .num 2)]),
+                                  (9, [("element", .str "H"), ("hcount", .num 0), ("atom_map", .num 10)]),
+                                  (6, [("element", .str "H"), ("hcount", .num 0), ("atom_map", .num 12)]),
+                                  (7, [("element", .str "H"), ("hcount", .num 0), ("atom_map", .num 14)])],
+                        edges := [(4, 9, [("order", .num 2)]), (6, 7, [("order", .num 2)])] }
+    G.WF ∧ HValence G ∧ (implicitHydrogen G []).ids = [4, 6, 7] ∧ (implicitHydrogenReindex G []).ids = [1, 2, 3] ∧
+    (implicitHydrogenReindex G []).edges.map (fun e => (e.1, e.2.1)) = [(2, 3)] ∧
+    (implicitHydrogenReindex G []).nodes.map (fun p => atomMapOf p.2) = [some 1, some 2, some 3] ∧
+    totalH G = 6 ∧ totalH (implicitHydrogenReindex G []) = 6 := by
+  decide
+
+/-- **C10, table → graph with both flags off is the default.**  On a table whose bonds join
+existing atoms (`Mol.WF`), `MolToGraph.transform(mol, drop_non_aam=False, use_index_as_atom_map=False)`
+as modelled with its options is `molToGraph`, the function the table clause is about. -/
+theorem molToGraphOpt_default (M : Mol) (h : M.WF) : molToGraphOpt false false M = .ok (molToGraph M) :=
+  molToGraphOpt_default' M h
+
+/-- **C10, `use_index_as_atom_map=True` renumbers the default graph**: node `idx + 1` becomes the
+atom's map number when that is non-zero (`aamMap`), provided no two atoms get the same id (the
+model answers `collision` otherwise: NetworkX would merge the atoms). -/
+theorem molToGraphOpt_useIdx (M : Mol) (h : M.WF) (hnd : ((molToGraph M).ids.map (aamMap M)).Nodup) :
+    molToGraphOpt true false M = .ok ((molToGraph M).relabel (aamMap M)) := molToGraphOpt_useIdx' M h hnd
+
+/-- **C10, `drop_non_aam=True` gives the induced subgraph on the mapped atoms.**  Whenever
+`use_index_as_atom_map=True` alone succeeds with graph `G`, adding `drop_non_aam=True` returns
+`dropUnmapped G`: the nodes of `G` whose `atom_map` is non-zero, in the same order with the same
+attribute dicts (`neighbors` still names dropped neighbours), and exactly the edges of `G` both of
+whose ends are kept.  Without `use_index_as_atom_map` the call raises (`molToGraphOpt_valueError`). -/
+theorem molToGraphOpt_drop (M : Mol) (G : LGraph) (h : molToGraphOpt true false M = .ok G) :
+    molToGraphOpt true true M = .ok (dropUnmapped G) := molToGraphOpt_drop' M G h
+
+/-- Non-vacuity: `[CH3:7][OH:5]` next to an unmapped water: the table is well-formed, the default ids
+are 1, 2, 3; with `use_index_as_atom_map` they are 7, 5 and (unmapped, index 2) 3 — no collision;
+`drop_non_aam` keeps the two mapped atoms and their bond. -/
+example :
+    let M : Mol := ⟨[⟨"C", 0, 7, 3, false⟩, ⟨"O", 0, 5, 1, false⟩, ⟨"O", 0, 0, 2, false⟩], [⟨0, 1, 2⟩]⟩
+    M.WF ∧ ((molToGraph M).ids.map (aamMap M)).Nodup ∧ (molToGraph M).ids = [1, 2, 3] ∧
+    (match molToGraphOpt true false M with | .ok G => G.ids | .error _ => []) = [7, 5, 3] ∧
+    (match molToGraphOpt true true M with | .ok G => (G.ids, G.edges.map fun e => (e.1, e.2.1)) | .error _ => ([], [])) =
+      ([7, 5], [(7, 5)]) := by
+  decide
+
+/-- **C10, GML export with `explicit_hydrogen=False` is the default export**, for `its_to_gml` and
+for `smart_to_gml`: every theorem about `itsToGml` / `smartToGml` is a theorem about the option
+model with the flag off. -/
+theorem itsToGmlX_false (core reindex : Bool) (I r p : LGraph) :
+    itsToGmlX core reindex false I = itsToGml core reindex I ∧
+    smartToGmlX core reindex false r p = smartToGml core reindex r p :=
+  ⟨itsToGmlX_false' core reindex I, smartToGmlX_false' core reindex r p⟩
+
+/-- **C10, ITS → GML (`explicit_hydrogen=True`) → ITS — partial: ids kept** (sixth clause of
+`C10.FullStatement` for the explicit-hydrogen export; what correspondence stream (c2) gates).  Let
+`I'` be the exported graph (the centre for `core=True`), of the shape `ITSGraph` / `get_rc` produce
+(`ItsShape`) and with `standard_order == 0` only on bonds whose order does not change
+(`StdConsistent`: `ITSGraph` sets `standard_order = before − after`; the writer decides by
+`standard_order` which bonds go into the context section, so a graph lying about it is re-imported
+with the wrong "after" order).  Then for the rule written with `reindex=False`,
+`explicit_hydrogen=True` and read back by `gml_to_its`:
+* its atoms are those of `I'` and the hydrogens `addedH I'` that `h_to_explicit` created
+  (consecutive new ids above the largest id);
+* on the atoms of `I'` it is `I'`: same (element, charge) before and after on every atom, same
+  (before, after) order pair on every pair of atoms — i.e. exactly what the default round trip
+  (`gml_roundtrip`) gives;
+* every other atom is a hydrogen (`H`, charge 0 on both sides) that is not an atom of `I'`, hangs on
+  one atom of `I'` by a (1, 1) bond and has no other bond;
+* every atom of `I'` gets as many of them as its `hcount` says;
+* (both values of `reindex`) the `left` and `right` sections are those of the default export.
+
+Missing: the re-import for `reindex=True` (there the new hydrogens keep their ids while the atoms
+of `I'` are renumbered `1..n`; the harness undoes the renumbering and gates the same predicate,
+and additionally requires ids ≥ 1 so that the two id ranges cannot collide). -/
+theorem itsToGmlX_roundtrip_partial (I : LGraph) (core : Bool) (hs : ItsShape (if core then getRc I else I))
+    (hc : StdConsistent (if core then getRc I else I)) :
+    (∀ n, n ∈ (gmlToIts (itsToGmlX core false true I)).ids ↔
+      n ∈ (if core then getRc I else I).ids ∨ ∃ q ∈ addedH (if core then getRc I else I), n = q.1) ∧
+    (∀ n ∈ (if core then getRc I else I).ids,
+      nodeView (gmlToIts (itsToGmlX core false true I)) n = nodeView (if core then getRc I else I) n ∧
+      nodeView (gmlToIts (itsToGmlX core false true I)) n = nodeView (gmlToIts (itsToGml core false I)) n) ∧
+    (∀ u ∈ (if core then getRc I else I).ids, ∀ v ∈ (if core then getRc I else I).ids,
+      edgeView (gmlToIts (itsToGmlX core false true I)) u v = edgeView (if core then getRc I else I) u v ∧
+      edgeView (gmlToIts (itsToGmlX core false true I)) u v = edgeView (gmlToIts (itsToGml core false I)) u v) ∧
+    (∀ q ∈ addedH (if core then getRc I else I),
+      q.1 ∉ (if core then getRc I else I).ids ∧ q.2 ∈ (if core then getRc I else I).ids ∧
+      nodeView (gmlToIts (itsToGmlX core false true I)) q.1 = .tup [.str "H", .num 0, .str "H", .num 0] ∧
+      edgeView (gmlToIts (itsToGmlX core false true I)) q.2 q.1 = some (.tup [.num 2, .num 2]) ∧
+      ∀ u, u ≠ q.2 → edgeView (gmlToIts (itsToGmlX core false true I)) u q.1 = none) ∧
+    (∀ v ∈ (if core then getRc I else I).ids,
+      ((addedH (if core then getRc I else I)).map (·.2)).count v = (hcnt ((if core then getRc I else I).attrs v)).toNat) ∧
+    (∀ ri, (itsToGmlX core ri true I).left = (itsToGml core ri I).left ∧
+      (itsToGmlX core ri true I).right = (itsToGml core ri I).right) := by
+  have key : ∀ I : LGraph, ItsShape I → StdConsistent I →
+      (∀ n, n ∈ (gmlToIts (itsToGmlX false false true I)).ids ↔ n ∈ I.ids ∨ ∃ q ∈ addedH I, n = q.1) ∧
+      (∀ n ∈ I.ids, nodeView (gmlToIts (itsToGmlX false false true I)) n = nodeView I n ∧
+        nodeView (gmlToIts (itsToGmlX false false true I)) n = nodeView (gmlToIts (itsToGml false false I)) n) ∧
+      (∀ u ∈ I.ids, ∀ v ∈ I.ids, edgeView (gmlToIts (itsToGmlX false false true I)) u v = edgeView I u v ∧
+        edgeView (gmlToIts (itsToGmlX false false true I)) u v = edgeView (gmlToIts (itsToGml false false I)) u v) ∧
+      (∀ q ∈ addedH I, q.1 ∉ I.ids ∧ q.2 ∈ I.ids ∧
+        nodeView (gmlToIts (itsToGmlX false false true I)) q.1 = .tup [.str "H", .num 0, .str "H", .num 0] ∧
+        edgeView (gmlToIts (itsToGmlX false false true I)) q.2 q.1 = some (.tup [.num 2, .num 2]) ∧
+        ∀ u, u ≠ q.2 → edgeView (gmlToIts (itsToGmlX false false true I)) u q.1 = none) ∧
+      (∀ v ∈ I.ids, ((addedH I).map (·.2)).count v = (hcnt (I.attrs v)).toNat) := by
+    intro I hs hc
+    obtain ⟨a, b, c, d, e⟩ := roundtripX_full I hs hc
+    obtain ⟨_, b', c', _⟩ := roundtripX I hs hc
+    exact ⟨a, fun n hn => ⟨b n hn, b' n hn⟩, fun u hu v hv => ⟨c u hu v hv, c' u hu v hv⟩, d, e⟩
+  cases core with
+  | false =>
+    obtain ⟨a, b, c, d, e⟩ := key I hs hc
+    exact ⟨a, b, c, d, e, fun ri => itsToGmlX_sides false ri I⟩
+  | true =>
+    obtain ⟨a, b, c, d, e⟩ := key (getRc I) hs hc
+    exact ⟨a, b, c, d, e, fun ri => itsToGmlX_sides true ri I⟩
+
+/-- Non-vacuity for `itsToGmlX_roundtrip_partial`: the two-atom centre of the `gml_roundtrip` example
+(C–O bond formed, O loses its charge) with three hydrogens on C and one on O: shape and
+`standard_order` consistency hold, four hydrogens are added (ids 3..6; three on atom 1, one on
+atom 2), they appear as context nodes and context edges of the written rule, and the re-imported
+rule has the six atoms. -/
+example :
+    let I : LGraph :=
+      { nodes := [(1, [("element", .str "C"), ("charge", .num 0), ("hcount", .num 6),
+                       ("typesGH", .tup [.tup [.str "C", .bool false, .num 6, .num 0, .tup []],
+                                         .tup [.str "C", .bool false, .num 6, .num 0, .tup []]])]),
+                  (2, [("element", .str "O"), ("charge", .num (-2)), ("hcount", .num 2),
+                       ("typesGH", .tup [.tup [.str "O", .bool false, .num 2, .num (-2), .tup []],
+                                         .tup [.str "O", .bool false, .num 2, .num 0, .tup []]])])],
+        edges := [(1, 2, [("order", .tup [.num 0, .num 2]), ("standard_order", .num (-2))])] }
+    ItsShape I ∧ StdConsistent I ∧ typesDomain I = true ∧ addedH I = [(3, 1), (4, 1), (5, 1), (6, 2)] ∧
+    (itsToGmlX false false true I).context =
+      [.node 1 ['C'], .node 3 ['H'], .node 4 ['H'], .node 5 ['H'], .node 6 ['H'],
+       .edge 1 3 ['-'], .edge 1 4 ['-'], .edge 1 5 ['-'], .edge 2 6 ['-']] ∧
+    (gmlToIts (itsToGmlX false false true I)).ids = [2, 1, 3, 4, 5, 6] ∧
+    edgeView (gmlToIts (itsToGmlX false false true I)) 1 2 = some (.tup [.num 0, .num 2]) ∧
+    edgeView (gmlToIts (itsToGmlX false false true I)) 2 6 = some (.tup [.num 2, .num 2]) := by
+  decide
+
+/-- `StdConsistent` cannot be dropped: a bond that breaks, (1, 0), but claims `standard_order = 0` is
+written into the context section and comes back as (1, 1). -/
+example :
+    let I : LGraph :=
+      { nodes := [(1, [("element", .str "C"), ("charge", .num 0),
+                       ("typesGH", .tup [.tup [.str "C", .bool false, .num 0, .num 0, .tup []],
+                                         .tup [.str "C", .bool false, .num 0, .num 0, .tup []]])]),
+                  (2, [("element", .str "O"), ("charge", .num 0),
+                       ("typesGH", .tup [.tup [.str "O", .bool false, .num 0, .num 0, .tup []],
+                                         .tup [.str "O", .bool false, .num 0, .num 0, .tup []]])])],
+        edges := [(1, 2, [("order", .tup [.num 2, .num 0]), ("standard_order", .num 0)])] }
+    ItsShape I ∧ ¬ StdConsistent I ∧ edgeView I 1 2 = some (.tup [.num 2, .num 0]) ∧
+    edgeView (gmlToIts (itsToGml false false I)) 1 2 = some (.tup [.num 2, .num 0]) ∧
+    edgeView (gmlToIts (itsToGmlX false false true I)) 1 2 = some (.tup [.num 2, .num 2]) := by
+  decide
+
+end ReprOpt
+
 open SynKit.Repr SynKit.Gml in
 /-- The first nine conjuncts of `C10.FullStatement`, all proved. -/
 theorem C10.clauses_1_to_9 :
